@@ -509,7 +509,7 @@ AlphaSeq ==
     "s1to3", "s1c5to7", "sBig", "sStar", "s1toStar", "s0", "s0to3", "sOverR", "sColon", "sCommas",
     "fSeen", "fStar", "kwA", "fNoselect", "aBox", "INBOX", "aEntry",
     "qEmpty", "qA", "qEsc", "qUtf8", "qLong", "qTEXT", "qMESSAGE", "qRFC822", "qMIXED", "qDate", "qSlash", "qInbox", "qBadUtf7",
-    "lit0", "lit3", "litCRLF", "litBig", "litShort",
+    "lit0", "lit3", "litCRLF", "litBig", "litShort", "litMax", "litHuge",
     "litNoNum", "litNoCRLF", "litOver", "litNeg", "litPlus", "litUnclosed", "litAlpha",
     "Nlp_10", "Nlp_1001", "Crp_10", "Nmp_10", "Cmp_10", "Nthr_10", "Nval_10",
     "OK", "NO", "BAD", "BYE", "PREAUTH", "CAPABILITY", "LIST", "LSUB", "STATUS", "SEARCH", "ESEARCH", "SORT", "THREAD",
@@ -528,7 +528,7 @@ TargetSeq(c) ==
   ELSE IF c = "set" THEN <<"s1", "s1to3", "s1c5to7", "sRev", "sMax", "sBig", "sHalf", "sStar", "s1toStar", "sStarTo1", "s1cStar",
                            "s0", "s0to3", "s1to0", "s1c0", "sOver", "sOverR", "sColon", "sCommas", "s20d", "DOLLAR">>
   ELSE IF c \in StrClasses THEN <<"litNoNum", "litNoCRLF", "litOver", "litNeg", "litPlus", "litUnclosed", "litAlpha",
-                                  "litShort", "litBig", "lit0", "qLong", "NIL">>
+                                  "litShort", "litMax", "litHuge", "litBig", "lit0", "qLong", "NIL">>
   ELSE IF c \in {"lp", "lpi"} THEN <<"Nlp_10", "Nlp_999", "Nlp_1000", "Nlp_1001">>
   ELSE <<>>
 \* '('^d far beyond the cap, in every slot that opens a list or body; in the quick tier
